@@ -1,8 +1,12 @@
 package main
 
 import (
+	"bytes"
 	"fmt"
 	"go/ast"
+	"go/printer"
+	"go/token"
+	"sort"
 	"strings"
 )
 
@@ -183,5 +187,332 @@ func init() {
 		}
 		fmt.Fprintf(&e.out, "/-- MultiQuotaTree, DisableDefaultQuota, ElasticQuota(Immediate)IgnoreTerminatingPod default to false everywhere they are declared -/\n")
 		fmt.Fprintf(&e.out, "def qGatesOff : Bool := %v\n", allOff)
+
+		c19BootFacts(e)
 	}
+}
+
+// ---- ext2: reserve-pod merge order + start-up registrations ----
+
+func c19Render(x ast.Node) string {
+	var b bytes.Buffer
+	_ = printer.Fprint(&b, token.NewFileSet(), x)
+	return strings.Join(strings.Fields(b.String()), " ")
+}
+
+func c19StrList(xs []string) string {
+	var q []string
+	for _, x := range xs {
+		q = append(q, leanStr(x))
+	}
+	return "[" + strings.Join(q, ", ") + "]"
+}
+
+// c19CalleeName: selector / identifier name of a call, "" otherwise
+func c19CalleeName(c *ast.CallExpr) string {
+	switch f := c.Fun.(type) {
+	case *ast.SelectorExpr:
+		return f.Sel.Name
+	case *ast.Ident:
+		return f.Name
+	}
+	return ""
+}
+
+var c19ResourceMarks = []string{"Pods", "Reservations", "Devices", "NodeResourceTopologies", "ElasticQuotas", "Nodes", "ConfigMaps"}
+
+// c19ResourceOf: which informer an expression denotes, following := definitions inside the function
+func c19ResourceOf(x ast.Expr, defs map[string]ast.Expr, depth int) string {
+	txt := c19Render(x)
+	for _, m := range c19ResourceMarks {
+		if strings.Contains(txt, "."+m+"()") {
+			return m
+		}
+	}
+	if depth > 4 {
+		return "?"
+	}
+	res := "?"
+	ast.Inspect(x, func(n ast.Node) bool {
+		if id, ok := n.(*ast.Ident); ok && res == "?" {
+			if d, ok := defs[id.Name]; ok {
+				if r := c19ResourceOf(d, defs, depth+1); r != "?" {
+					res = r
+				}
+			}
+		}
+		return true
+	})
+	return res
+}
+
+// c19Registrations: every informer handler registration made inside fd, in source order: "<call>:<resource>"
+func c19Registrations(fd *ast.FuncDecl) []string {
+	defs := map[string]ast.Expr{}
+	ast.Inspect(fd.Body, func(n ast.Node) bool {
+		if as, ok := n.(*ast.AssignStmt); ok && as.Tok == token.DEFINE && len(as.Lhs) == len(as.Rhs) {
+			for i, l := range as.Lhs {
+				if id, ok := l.(*ast.Ident); ok {
+					defs[id.Name] = as.Rhs[i]
+				}
+			}
+		}
+		return true
+	})
+	var out []string
+	ast.Inspect(fd.Body, func(n ast.Node) bool {
+		c, ok := n.(*ast.CallExpr)
+		if !ok {
+			return true
+		}
+		switch name := c19CalleeName(c); name {
+		case "ForceSyncFromInformer", "ForceSyncFromInformerWithReplace":
+			if len(c.Args) >= 3 {
+				out = append(out, name+":"+c19ResourceOf(c.Args[2], defs, 0))
+			} else {
+				out = append(out, name+":?")
+			}
+		case "AddEventHandler", "AddEventHandlerWithResyncPeriod", "AddEventHandlerWithOptions":
+			if sel, ok := c.Fun.(*ast.SelectorExpr); ok {
+				out = append(out, name+":"+c19ResourceOf(sel.X, defs, 0))
+			}
+		}
+		return true
+	})
+	return out
+}
+
+// c19CallsAmong: names of the calls inside body that belong to `among`, in source order (selector calls on
+// `qual` are rendered "qual.Name" when qual is listed in quals)
+func c19CallsAmong(body ast.Node, among map[string]bool, quals map[string]bool) []string {
+	var out []string
+	ast.Inspect(body, func(n ast.Node) bool {
+		c, ok := n.(*ast.CallExpr)
+		if !ok {
+			return true
+		}
+		name := c19CalleeName(c)
+		if sel, ok := c.Fun.(*ast.SelectorExpr); ok {
+			if id, ok := sel.X.(*ast.Ident); ok && quals[id.Name] {
+				name = id.Name + "." + name
+			}
+		}
+		if among[name] {
+			out = append(out, name)
+		}
+		return true
+	})
+	return out
+}
+
+func c19BootFacts(e *ext) {
+	// (1) NewReservePod: the merge order, canonical w.r.t. renames of the two variables and reorderings of independent
+	// statements: the template copy precedes both merge loops; each loop's body shape ("set" = exactly the plain
+	// `pod.X[k] = v`); the keys the adapter writes itself (sorted) and whether all of them follow the annotation loop.
+	if fd := e.funcDecl("pkg/util/reservation", "", "NewReservePod"); fd == nil || fd.Body == nil || len(fd.Type.Params.List) != 1 || len(fd.Type.Params.List[0].Names) != 1 {
+		e.fail("NewReservePod not found / unexpected signature")
+	} else {
+		rv := fd.Type.Params.List[0].Names[0].Name // the Reservation
+		pv := ""                                   // the pod being built = what the last return statement returns
+		for _, st := range fd.Body.List {
+			if ret, ok := st.(*ast.ReturnStmt); ok && len(ret.Results) == 1 {
+				if id, ok := ret.Results[0].(*ast.Ident); ok {
+					pv = id.Name
+				}
+			}
+		}
+		if pv == "" {
+			e.fail("NewReservePod: returned identifier not found")
+		}
+		type item struct {
+			kind string
+			pos  token.Pos
+		}
+		var seq []item
+		var walk func(list []ast.Stmt)
+		walk = func(list []ast.Stmt) {
+			for _, st := range list {
+				switch v := st.(type) {
+				case *ast.AssignStmt:
+					if len(v.Lhs) == 1 {
+						l := c19Render(v.Lhs[0])
+						if l == pv+".ObjectMeta" {
+							seq = append(seq, item{"template-copy", v.Pos()})
+						} else if ix, ok := v.Lhs[0].(*ast.IndexExpr); ok && (c19Render(ix.X) == pv+".Annotations" || c19Render(ix.X) == pv+".Labels") {
+							seq = append(seq, item{"set:" + c19Render(ix.X)[len(pv)+1:] + "[" + c19Render(ix.Index) + "]", v.Pos()})
+						}
+					}
+				case *ast.RangeStmt:
+					src := c19Render(v.X)
+					if src == rv+".Annotations" || src == rv+".Labels" {
+						field := src[len(rv)+1:]
+						var body []string
+						for _, b := range v.Body.List {
+							kind := "other"
+							if as, ok := b.(*ast.AssignStmt); ok && len(as.Lhs) == 1 && len(as.Rhs) == 1 && as.Tok == token.ASSIGN {
+								want := pv + "." + field + "[" + c19Render(v.Key) + "]"
+								if c19Render(as.Lhs[0]) == want && c19Render(as.Rhs[0]) == c19Render(v.Value) {
+									kind = "set"
+								}
+							} else if _, ok := b.(*ast.IfStmt); ok {
+								kind = "if"
+							}
+							body = append(body, kind)
+						}
+						seq = append(seq, item{"range:" + field + "[" + strings.Join(body, ",") + "]", v.Pos()})
+					} else {
+						walk(v.Body.List)
+					}
+				case *ast.IfStmt:
+					walk(v.Body.List)
+					if blk, ok := v.Else.(*ast.BlockStmt); ok {
+						walk(blk.List)
+					}
+				case *ast.BlockStmt:
+					walk(v.List)
+				}
+			}
+		}
+		walk(fd.Body.List)
+		var loops, writes []string
+		copyPos, annLoopPos := token.NoPos, token.NoPos
+		copyFirst, writesAfter := true, true
+		for _, it := range seq {
+			switch {
+			case it.kind == "template-copy":
+				copyPos = it.pos
+			case strings.HasPrefix(it.kind, "range:"):
+				loops = append(loops, it.kind)
+				if strings.HasPrefix(it.kind, "range:Annotations") {
+					annLoopPos = it.pos
+				}
+			}
+		}
+		for _, it := range seq {
+			if strings.HasPrefix(it.kind, "range:") && (copyPos == token.NoPos || it.pos < copyPos) {
+				copyFirst = false
+			}
+			if strings.HasPrefix(it.kind, "set:") {
+				writes = append(writes, it.kind)
+				if annLoopPos == token.NoPos || it.pos < annLoopPos {
+					writesAfter = false
+				}
+			}
+		}
+		sort.Strings(loops)
+		sort.Strings(writes)
+		fmt.Fprintf(&e.out, "/-- NewReservePod: the merge loops over the Reservation's own labels / annotations with the shape of their bodies (sorted) -/\n")
+		fmt.Fprintf(&e.out, "def rpodLoops : List String := %s\n", c19StrList(loops))
+		fmt.Fprintf(&e.out, "/-- NewReservePod: the keys the adapter writes itself (sorted) -/\n")
+		fmt.Fprintf(&e.out, "def rpodOwnWrites : List String := %s\n", c19StrList(writes))
+		fmt.Fprintf(&e.out, "/-- the template's ObjectMeta is copied before both merge loops; the adapter's own writes follow the annotation loop -/\n")
+		fmt.Fprintf(&e.out, "def rpodTemplateCopiedFirst : Bool := %v\ndef rpodOwnWritesAfterMerge : Bool := %v\n", copyFirst && copyPos != token.NoPos, writesAfter && len(writes) > 0)
+	}
+	// every entry point of the adapter builds the pod with NewReservePod
+	{
+		var parts []string
+		for _, m := range []string{"OnAdd", "OnUpdate", "OnDelete"} {
+			fd := e.funcDecl("pkg/util/reservation", "ReservationToPodEventHandler", m)
+			if fd == nil || fd.Body == nil {
+				e.fail("ReservationToPodEventHandler.%s not found", m)
+				continue
+			}
+			n := len(c19CallsAmong(fd.Body, map[string]bool{"NewReservePod": true}, nil))
+			parts = append(parts, fmt.Sprintf("(%s, %d)", leanStr(m), n))
+		}
+		fmt.Fprintf(&e.out, "/-- number of NewReservePod calls in the adapter's handlers -/\n")
+		fmt.Fprintf(&e.out, "def rpodAdapterCalls : List (String × Nat) := [%s]\n", strings.Join(parts, ", "))
+	}
+	// PreBindReservation persists on the Reservation OBJECT it is given (3rd argument of preBindObject)
+	{
+		var parts []string
+		for _, dir := range []string{"pkg/scheduler/plugins/nodenumaresource", "pkg/scheduler/plugins/deviceshare"} {
+			fd := e.funcDecl(dir, "Plugin", "PreBindReservation")
+			target := "?"
+			if fd != nil && fd.Body != nil {
+				ast.Inspect(fd.Body, func(n ast.Node) bool {
+					if c, ok := n.(*ast.CallExpr); ok && c19CalleeName(c) == "preBindObject" && len(c.Args) >= 3 {
+						target = c19Render(c.Args[2])
+					}
+					return true
+				})
+				// the parameter of type *Reservation
+				for _, f := range fd.Type.Params.List {
+					if strings.HasSuffix(c19Render(f.Type), "Reservation") && len(f.Names) == 1 && f.Names[0].Name == target {
+						target = "the-reservation-parameter"
+					}
+				}
+			} else {
+				e.fail("%s Plugin.PreBindReservation not found", dir)
+			}
+			parts = append(parts, fmt.Sprintf("(%s, %s)", leanStr(dir[len("pkg/scheduler/plugins/"):]), leanStr(target)))
+		}
+		fmt.Fprintf(&e.out, "/-- object PreBindReservation hands to preBindObject -/\n")
+		fmt.Fprintf(&e.out, "def preBindReservationTarget : List (String × String) := [%s]\n", strings.Join(parts, ", "))
+	}
+
+	// (2) start-up: every informer handler registration of the functions that rebuild allocation state
+	sites := [][3]string{
+		{"pkg/scheduler/plugins/deviceshare", "", "registerPodEventHandler"},
+		{"pkg/scheduler/plugins/deviceshare", "", "registerDeviceEventHandler"},
+		{"pkg/scheduler/plugins/nodenumaresource", "", "registerPodEventHandler"},
+		{"pkg/scheduler/plugins/nodenumaresource", "", "registerNodeResourceTopologyEventHandler"},
+		{"pkg/scheduler/plugins/reservation", "", "registerReservationEventHandler"},
+		{"pkg/scheduler/plugins/reservation", "", "registerPodEventHandler"},
+		{"pkg/scheduler/plugins/elasticquota", "", "New"},
+	}
+	var regs []string
+	for _, s := range sites {
+		fd := e.funcDecl(s[0], s[1], s[2])
+		if fd == nil || fd.Body == nil {
+			e.fail("%s.%s not found", s[0], s[2])
+			continue
+		}
+		rs := c19Registrations(fd)
+		sort.Strings(rs) // the registrations inside one function are independent statements
+		regs = append(regs, fmt.Sprintf("(%s, %s)", leanStr(s[0][len("pkg/scheduler/plugins/"):]+"."+s[2]), c19StrList(rs)))
+	}
+	fmt.Fprintf(&e.out, "/-- informer handler registrations (call:resource, sorted) of the functions that rebuild allocation state -/\n")
+	fmt.Fprintf(&e.out, "def bootRegistrations : List (String × List String) := [%s]\n", strings.Join(regs, ", "))
+
+	// the collector and the barrier
+	helper := "pkg/scheduler/frameworkext/helper"
+	emitCalls := func(lean, doc string, fd *ast.FuncDecl, among ...string) {
+		if fd == nil || fd.Body == nil {
+			e.fail("%s: function not found", lean)
+			return
+		}
+		m := map[string]bool{}
+		for _, a := range among {
+			m[a] = true
+		}
+		fmt.Fprintf(&e.out, "/-- %s -/\ndef %s : List String := %s\n", doc, lean, c19StrList(c19CallsAmong(fd.Body, m, map[string]bool{"sched": true, "frameworkexthelper": true})))
+	}
+	emitCalls("bootForceSync", "ForceSyncFromInformer: registers, then collects the registration", e.funcDecl(helper, "", "ForceSyncFromInformer"),
+		"AddEventHandler", "AddEventHandlerWithResyncPeriod", "addRegistration")
+	emitCalls("bootWrapperAdd", "forceSyncsharedIndexInformer.AddEventHandlerWithResyncPeriod (kube factory wrapper): registers, then collects",
+		e.funcDecl(helper, "forceSyncsharedIndexInformer", "AddEventHandlerWithResyncPeriod"), "AddEventHandler", "AddEventHandlerWithResyncPeriod", "addRegistration")
+	emitCalls("bootWrapperAddPlain", "forceSyncsharedIndexInformer.AddEventHandler goes through the collecting method",
+		e.funcDecl(helper, "forceSyncsharedIndexInformer", "AddEventHandler"), "AddEventHandler", "AddEventHandlerWithResyncPeriod", "addRegistration")
+	emitCalls("bootBarrier", "WaitForHandlersSync: polls HasSynced of every collected registration", e.funcDecl(helper, "", "WaitForHandlersSync"),
+		"GetRegistrations", "HasSynced", "PollUntilContextCancel")
+	emitCalls("bootServerOrder", "cmd/koord-scheduler/app Run: informer start / store sync / handler barriers / scheduling loop, in source order",
+		e.funcDecl("cmd/koord-scheduler/app", "", "Run"),
+		"Start", "WaitForCacheSync", "sched.WaitForHandlersSync", "frameworkexthelper.WaitForHandlersSync", "sched.Run",
+		"frameworkexthelper.RunAfterPluginInformersSynced", "frameworkexthelper.RunAfterAllInformersSynced")
+	// the kube informer factory handed to the plugins is the collecting wrapper
+	wrapped := false
+	if fd := e.funcDecl("cmd/koord-scheduler/app/options", "Options", "Config"); fd != nil && fd.Body != nil {
+		ast.Inspect(fd.Body, func(n ast.Node) bool {
+			if as, ok := n.(*ast.AssignStmt); ok && len(as.Lhs) == 1 && len(as.Rhs) == 1 && c19Render(as.Lhs[0]) == "config.InformerFactory" {
+				if c, ok := as.Rhs[0].(*ast.CallExpr); ok && c19CalleeName(c) == "NewForceSyncSharedInformerFactory" {
+					wrapped = true
+				}
+			}
+			return true
+		})
+	} else {
+		e.fail("Options.Config not found")
+	}
+	fmt.Fprintf(&e.out, "/-- options.Config wraps config.InformerFactory with NewForceSyncSharedInformerFactory -/\ndef bootKubeFactoryWrapped : Bool := %v\n", wrapped)
 }
